@@ -559,7 +559,7 @@ def kind_dispatch_agrees(ctx, res):
                    f"it): any other attribute reads as None and a container "
                    f"trait is hooked as a simple link - its items are never "
                    f"reached")
-    res.floor(2)
+    res.floor(1)
 
 
 # ---------------------------------------------------------------------------
